@@ -1,3 +1,165 @@
-From Argot Require Import Model.Defers.
-From Coq Require Import List. Import ListNotations.
-Example ex1 : stack_compare [] [] = Eq. Proof. reflexivity. Qed.
+(** * C16 — the defer analysis computes exactly the possible defer stacks
+
+    Statements only.  Model of [analysis/defers/defer.go]: [Model/Defers.v]; independent specification (CFG
+    paths, concrete defer-stack semantics [step_real]: a defer pushes, RunDefers pops everything, order [slt],
+    sorted sets): [Model/DefersSpec.v]; proofs: [Proofs/Defers*.v].
+    All theorems quantify over every CFG [c], every block order [order] and every [fuel]. *)
+From Coq Require Import List Arith Bool.
+From Argot Require Import Model.Defers Model.DefersSpec Model.DefersExamples Proofs.Defers.
+Import ListNotations.
+
+(** ** 1. [stackCompare] decides a strict total order whose [Eq] is list equality *)
+Theorem stack_compare_strict_total_order :
+  (forall a b, stack_compare a b = Eq <-> a = b) /\
+  (forall a b, stack_compare b a = CompOpp (stack_compare a b)) /\
+  (forall a, ~ slt a a) /\
+  (forall a b c, slt a b -> slt b c -> slt a c) /\
+  (forall a b, slt a b \/ a = b \/ slt b a).
+Proof. exact stack_compare_order. Qed.
+
+Theorem stack_compare_decidable : forall a b, {slt a b} + {a = b} + {slt b a}.
+Proof. exact sc_dec. Qed.
+
+(** [sorted] (= [StronglySorted slt]) is the usual "adjacent elements strictly increasing", hence duplicate-free *)
+Theorem sorted_is_Sorted_NoDup : forall l, (sorted l <-> Sorted.Sorted slt l) /\ (sorted l -> NoDup l).
+Proof. exact (fun l => conj (sorted_iff_Sorted l) (sorted_NoDup l)). Qed.
+
+(** ** 2. [stackSetUnion] on sorted duplicate-free sets *)
+Theorem union_spec : forall a b r same,
+  sorted a -> sorted b -> stack_set_union a b = (r, same) ->
+  sorted r /\ (forall s, In s r <-> In s a \/ In s b) /\ (same = true <-> incl b a) /\ (same = true -> r = a).
+Proof. exact union_spec_full. Qed.
+
+(** ** 3. [dataflowTransfer] *)
+Theorem transfer_spec : forall d k v r rp,
+  sorted v -> transfer d k v = (r, rp) ->
+  match k with
+  | KDefer => sorted r /\ (forall s', In s' r <-> exists s, In s v /\ s' = push_defer d s)
+              /\ (rp = true <-> exists s, In s v /\ In d s)
+  | KRunDefers => r = [[]] /\ rp = false
+  | KOther => r = v /\ rp = false
+  end.
+Proof. exact Proofs.Defers.transfer_spec. Qed.
+
+(** ** 5. exactness: bounded => the set reported at a RunDefers = the defer stacks of the entry paths to it *)
+Theorem defers_exact : forall fuel c order st,
+  wf_cfg c = true -> fair c order -> analyze fuel c order = Done st -> bounded st = true ->
+  forall r s, (exists set, run_sets st r = Some set /\ In s set) <-> path_stacks c r s.
+Proof. exact Proofs.Defers.defers_exact. Qed.
+
+(** in general (bounded or not) the reported sets are exactly the abstract stacks (first occurrences only) *)
+Theorem defers_abs_exact : forall fuel c order st,
+  wf_cfg c = true -> fair c order -> analyze fuel c order = Done st ->
+  forall r s, (exists set, run_sets st r = Some set /\ In s set) <-> abs_stacks c r s.
+Proof. exact Proofs.Defers.defers_abs_exact. Qed.
+
+(** every reported set is a sorted duplicate-free non-empty set at a reachable RunDefers *)
+Theorem run_sets_wf : forall fuel c order st r set,
+  analyze fuel c order = Done st -> run_sets st r = Some set ->
+  sorted set /\ set <> [] /\ is_rundefers c r /\ reachable c (fst r).
+Proof. exact Proofs.Defers.run_sets_wf. Qed.
+
+(** under [wf_cfg] the reset of the concrete semantics never discards anything before the first RunDefers
+    of a block: the stack there is the plain sequence of all defers executed along the path *)
+Theorem real_no_reset : forall c p b j,
+  wf_cfg c = true -> epath c p b -> is_rundefers c (b, j) ->
+  (forall j', j' < j -> ~ is_rundefers c (b, j')) ->
+  at_exec step_real c (b, j) (path_exec step_real c p) = at_exec step_seq c (b, j) (path_exec step_seq c p).
+Proof. exact Proofs.Defers.real_no_reset. Qed.
+
+(** the dominator preorder lists every block, which is more than [fair] asks for *)
+Theorem covers_all_fair : forall c order, covers_all c order -> fair c order.
+Proof. exact Proofs.Defers.covers_all_fair. Qed.
+
+(** ** 6. unbounded <=> a reachable defer lies on a CFG cycle *)
+Theorem unbounded_iff : forall fuel c order st,
+  wf_cfg c = true -> fair c order -> analyze fuel c order = Done st ->
+  (bounded st = false <-> defer_on_cycle c).
+Proof. exact Proofs.Defers.unbounded_iff. Qed.
+
+(** ** 7. termination, bounded or not, for every CFG (well-formed or not) and every order *)
+Theorem defers_terminates : forall c order,
+  exists n, forall m, n <= m -> analyze m c order <> OutOfFuel /\ analyze m c order = analyze n c order.
+Proof. exact Proofs.DefersTerm.defers_terminates. Qed.
+
+(** ** 8. the result does not depend on the (fair) block order *)
+Corollary order_free : forall fuel1 fuel2 c order1 order2 st1 st2,
+  wf_cfg c = true -> fair c order1 -> fair c order2 ->
+  analyze fuel1 c order1 = Done st1 -> analyze fuel2 c order2 = Done st2 ->
+  bounded st1 = bounded st2 /\ forall r, run_sets st1 r = run_sets st2 r.
+Proof. exact Proofs.Defers.order_free. Qed.
+
+(** ** non-vacuity: the hypotheses are satisfiable by non-trivial inputs *)
+Example ex_diamond_hyps :
+  wf_cfg ex_diamond = true /\ covers_all ex_diamond ex_diamond_order /\ covers_all ex_diamond ex_diamond_order'.
+Proof.
+  split; [vm_compute; reflexivity|].
+  split; intros b Hb; do 4 (destruct b as [|b]; [vm_compute; tauto|]); vm_compute in Hb;
+    exfalso; repeat apply le_S_n in Hb; inversion Hb.
+Qed.
+
+(** bounded, two stacks at the exit; the second order needs more sweeps but gives the same answer *)
+Example ex_diamond_result :
+  let st := final (analyze 20 ex_diamond ex_diamond_order) in
+  let st' := final (analyze 20 ex_diamond ex_diamond_order') in
+  analyze 20 ex_diamond ex_diamond_order = Done st /\ analyze 20 ex_diamond ex_diamond_order' = Done st' /\
+  bounded st = true /\ bounded st' = true /\
+  run_sets st (3, 0) = Some [[(1, 0)]; [(2, 1)]] /\ run_sets st' (3, 0) = Some [[(1, 0)]; [(2, 1)]].
+Proof. vm_compute. repeat split; reflexivity. Qed.
+
+(** hence (by [defers_exact]) both one-element stacks are stacks of real entry paths, and nothing else is *)
+Example ex_diamond_paths :
+  forall s, path_stacks ex_diamond (3, 0) s <-> s = [(1, 0)] \/ s = [(2, 1)].
+Proof.
+  intros s.
+  rewrite <- (Proofs.Defers.defers_exact 20 ex_diamond ex_diamond_order
+                (final (analyze 20 ex_diamond ex_diamond_order))
+                (proj1 ex_diamond_hyps) (Proofs.Defers.covers_all_fair _ _ (proj1 (proj2 ex_diamond_hyps)))
+                eq_refl eq_refl (3, 0) s).
+  vm_compute. split.
+  - intros (set & E & H). inversion E; subst set. destruct H as [H|[H|[]]]; auto.
+  - intros [->| ->]; eexists; split; try reflexivity; simpl; auto.
+Qed.
+
+Example ex_loop_hyps : wf_cfg ex_loop = true /\ covers_all ex_loop ex_loop_order.
+Proof.
+  split; [vm_compute; reflexivity|].
+  intros b Hb; do 4 (destruct b as [|b]; [vm_compute; tauto|]); vm_compute in Hb;
+    exfalso; repeat apply le_S_n in Hb; inversion Hb.
+Qed.
+
+(** unbounded; two sweeps are not enough, twenty are *)
+Example ex_loop_result :
+  let st := final (analyze 20 ex_loop ex_loop_order) in
+  analyze 20 ex_loop ex_loop_order = Done st /\ bounded st = false /\
+  run_sets st (3, 0) = Some [[]; [(2, 0)]] /\ analyze 2 ex_loop ex_loop_order = OutOfFuel.
+Proof. vm_compute. repeat split; reflexivity. Qed.
+
+(** hence (by [unbounded_iff]) a reachable defer of [ex_loop] lies on a cycle *)
+Example ex_loop_cycle : defer_on_cycle ex_loop.
+Proof.
+  exact (proj1 (Proofs.Defers.unbounded_iff 20 ex_loop ex_loop_order (final (analyze 20 ex_loop ex_loop_order))
+                  (proj1 ex_loop_hyps) (Proofs.Defers.covers_all_fair _ _ (proj2 ex_loop_hyps)) eq_refl) eq_refl).
+Qed.
+
+(** ... and the diamond has none *)
+Example ex_diamond_no_cycle : ~ defer_on_cycle ex_diamond.
+Proof.
+  intros H.
+  apply (proj2 (Proofs.Defers.unbounded_iff 20 ex_diamond ex_diamond_order
+                  (final (analyze 20 ex_diamond ex_diamond_order))
+                  (proj1 ex_diamond_hyps) (Proofs.Defers.covers_all_fair _ _ (proj1 (proj2 ex_diamond_hyps)))
+                  eq_refl)) in H.
+  vm_compute in H. discriminate.
+Qed.
+
+(** sorted sets for [union_spec] / [transfer_spec], and a union that adds something *)
+Example ex_union :
+  sorted [[(1, 0)]; [(2, 1)]] /\ sorted [[]; [(2, 1)]] /\
+  stack_set_union [[(1, 0)]; [(2, 1)]] [[]; [(2, 1)]] = ([[]; [(1, 0)]; [(2, 1)]], false) /\
+  transfer (2, 1) KDefer [[(1, 0)]; [(2, 1)]] = ([[(1, 0); (2, 1)]; [(2, 1)]], true).
+Proof.
+  split; [|split; [|split; reflexivity]].
+  - repeat constructor.
+  - repeat constructor.
+Qed.
